@@ -100,7 +100,7 @@ class ProgGen:
         ch, a, f = self.ch, self.a, self.f
         kinds = ["scalar"]
         if f.mapping and f.hashing:
-            kinds += ["map", "map", "array", "nested", "packedkey", "arrayconst", "mapconst", "reordered"]
+            kinds += ["map", "map", "array", "nested", "packedkey", "arrayconst", "mapconst", "reordered", "bigkey", "array2d"]
         if f.raw_symbolic_slot:
             kinds += ["rawsym"]
         k = ch.choose(kinds, lbl + ".sk")
@@ -158,6 +158,25 @@ class ProgGen:
             self.key_expr(lbl + ".k2")
             a.push(0).op("MSTORE")
             a.push(0x40).push(0).op("SHA3")
+        elif k == "bigkey":
+            # mapping(bytes => ..) with a 96-byte key: keccak(key . base) over exactly 128 bytes, the first key word concrete or
+            # symbolic, the other two fixed (so that a concrete and a symbolic spelling of one location meet)
+            self.key_expr(lbl + ".k")
+            a.push(0x200).op("MSTORE")
+            a.push(0x1111).push(0x220).op("MSTORE")
+            a.push(0x2222).push(0x240).op("MSTORE")
+            a.push(base).push(0x260).op("MSTORE")
+            a.push(0x80).push(0x200).op("SHA3")
+        elif k == "array2d":
+            # a[i][j] of a uint[][] at `base`: keccak(keccak(base) + i) + j
+            self.key_expr(lbl + ".i", small=True)
+            a.push(base).push(0).op("MSTORE")
+            a.push(0x20).push(0).op("SHA3")
+            a.op("ADD")
+            a.push(0).op("MSTORE")
+            a.push(0x20).push(0).op("SHA3")
+            self.key_expr(lbl + ".j", small=True)
+            a.op("ADD")
         elif k == "packedkey":
             # keccak(key(20 bytes) . base) - key of width != 256
             self.key_expr(lbl + ".k")
@@ -542,9 +561,9 @@ class ProgGen:
             if f.value_calls and ch.chance(0.4, lbl + ".val"):
                 if ch.chance(0.5, lbl + ".symval"):
                     self.input_word(lbl + "v")
-                    a.push(ch.choose([0xFF, 0xFFFF, 1], lbl + ".vm")).op("AND")
+                    a.push(ch.choose([0xFF, 0xFFFF, 1, (1 << 256) - 1, 1 << 255], lbl + ".vm")).op("AND")
                 else:
-                    a.push(ch.choose([1, 5, 1000, 10**18], lbl + ".cv"))
+                    a.push(ch.choose([1, 5, 1000, 10**18, 1 << 255, (1 << 256) - 1], lbl + ".cv"))
             else:
                 a.push(0)
         if f.symbolic_target and ch.chance(0.3, lbl + ".symto"):
